@@ -1,6 +1,7 @@
 package gosym
 
 import (
+	"math/big"
 	"fmt"
 	"strconv"
 )
@@ -60,6 +61,7 @@ func init() {
 		if len(ex.randQueue) > 0 {
 			v = ex.randQueue[0]
 			ex.randQueue = ex.randQueue[1:]
+			ex.usedRandQueue = true
 		} else {
 			ex.nRand++
 			name := fmt.Sprintf("rand!%d", ex.nRand)
@@ -79,6 +81,34 @@ func init() {
 	in["math/rand.Intn"] = rnd
 	in["math/rand.Int63n"] = rnd
 	in["math/rand.Seed"] = func(ex *Exec, c *callCtx) (Value, bool) { return nil, true }
+	// draws without an argument: an arbitrary value of the documented range (never taken from the
+	// vRandNext queue, which stands for Intn-style draws)
+	rndFull := func(bits int, w int) func(ex *Exec, c *callCtx) (Value, bool) {
+		return func(ex *Exec, c *callCtx) (Value, bool) {
+			ex.nRand++
+			name := fmt.Sprintf("rand!%d", ex.nRand)
+			ex.noteNondet(name, "rand")
+			hi := new(big.Int).Sub(pow2(bits), big1)
+			if ex.BV {
+				v := ex.tb.Var(name, Sort{K: KBV, W: w}, nil, nil)
+				if bits < w {
+					ex.addAssume(c.st.G, ex.tb.BVUle(v, ex.tb.BVBig(w, hi)))
+				}
+				return v, true
+			}
+			return ex.tb.Var(name, SInt, big0, hi), true
+		}
+	}
+	in["math/rand.Uint32"] = rndFull(32, 32)
+	in["math/rand.Uint64"] = rndFull(64, 64)
+	in["math/rand.Int63"] = rndFull(63, 64)
+	in["math/rand.Int31"] = rndFull(31, 32)
+	in["math/rand.Int"] = rndFull(63, 64)
+	harnessIntrinsics["vRandUsed"] = func(ex *Exec, c *callCtx) (Value, bool) {
+		used := len(ex.randQueue) == 0
+		ex.randQueue = nil
+		return ex.tb.Bool(used), true
+	}
 	harnessIntrinsics["vRandNext"] = func(ex *Exec, c *callCtx) (Value, bool) {
 		ex.randQueue = append(ex.randQueue, c.args[0].(*Term))
 		return nil, true
